@@ -126,6 +126,7 @@ def step (w : World) (line : String) : World × String :=
   | "cell" :: id :: cached :: an :: np :: body =>
     match id.toNat?, np.toNat?, parseExpr body with
     | some id, some np, some (e, []) =>
+      if !blocksSimple e then (w, "unsupported: a try inside an except/finally block") else
       let d : CellDef := { cached := cached = "1", allowNone := (if an = "n" then none else some (an = "1")), nparams := np, body := e }
       ({ w with cells := (id, d) :: w.cells.filter (·.1 != id) }, "ok")
     | _, _, _ => (w, "bad-op")
@@ -188,6 +189,7 @@ def step (w : World) (line : String) : World × String :=
   | "setformula" :: id :: body =>
     match id.toNat?, parseExpr body with
     | some id, some (e, []) =>
+      if !blocksSimple e then (w, "unsupported: a try inside an except/finally block") else
       match w.cell? id with
       | none => (w, "err Name")
       | some d =>
